@@ -25,8 +25,22 @@ thread_local! {
     static CLONES: Cell<u64> = const { Cell::new(0) };
 }
 
-#[derive(Debug, PartialEq, Eq)]
+/// Element type of the level-1 lists. Like numbat's `Quantity` (`1 m == 100 cm`), its equality
+/// is coarser than identity: two elements are `==` when their keys (value / 16) agree, whatever
+/// their tag (value % 16). The model and all content checks compare the full value, so a list
+/// that keeps an "equal" element instead of the one it was given is noticed (seeded S18d/S18e).
+#[derive(Debug)]
 pub struct Elem(pub u64);
+
+pub fn key_of(v: u64) -> u64 {
+    v / 16
+}
+
+impl PartialEq for Elem {
+    fn eq(&self, other: &Self) -> bool {
+        key_of(self.0) == key_of(other.0)
+    }
+}
 
 impl Clone for Elem {
     fn clone(&self) -> Self {
@@ -418,7 +432,12 @@ pub fn exec_ops(ops: &[Op], res: &mut ExecResult) {
                 let a = w.real[*i].as_ref().unwrap();
                 let b = w.real[*j].as_ref().unwrap();
                 let got = a == b;
-                let want = w.model[*i].as_ref().unwrap().items == w.model[*j].as_ref().unwrap().items;
+                // element equality is by key (see `Elem`)
+                let keys = |h: &MHandle| h.items.iter().map(|v| key_of(*v)).collect::<Vec<u64>>();
+                let want = keys(w.model[*i].as_ref().unwrap()) == keys(w.model[*j].as_ref().unwrap());
+                if want && w.model[*i].as_ref().unwrap().items != w.model[*j].as_ref().unwrap().items {
+                    res.bump("probe.eq_of_equal_but_distinct_elements");
+                }
                 let same_group =
                     w.model[*i].as_ref().unwrap().group == w.model[*j].as_ref().unwrap().group;
                 if same_group && i != j {
@@ -553,15 +572,23 @@ pub fn generate_ops(rng: &mut Rng, fault: bool) -> Vec<Op> {
     let mut ops = vec![];
     let mut live: Vec<bool> = vec![];
     let mut lens: Vec<usize> = vec![];
-    let mut next_val = 1u64;
+    // values are key * 16 + tag; fresh values get a new key, "twins" reuse the key of an element
+    // that is or was in some list (equal under `==`, different under observation)
+    let mut next_val = 16u64;
+    let mut next_tag = 0u64;
     let fresh = |n: usize, next_val: &mut u64| -> Vec<u64> {
         (0..n)
             .map(|_| {
-                *next_val += 1;
+                *next_val += 16;
                 *next_val
             })
             .collect()
     };
+    // the generator's own rough idea of the contents (bias only: which values sit in, or were
+    // just removed from, the front and back of each handle)
+    let mut contents: Vec<Vec<u64>> = vec![];
+    let mut removed: Vec<u64> = vec![];
+    let twins = rng.chance(0.6);
     for _ in 0..len {
         let alive: Vec<usize> = (0..live.len()).filter(|i| live[*i]).collect();
         if alive.is_empty() || (alive.len() < max_handles && rng.chance(0.08)) {
@@ -570,19 +597,25 @@ pub fn generate_ops(rng: &mut Rng, fault: bool) -> Vec<Op> {
                 0 => {
                     ops.push(Op::New);
                     lens.push(0);
+                    contents.push(vec![]);
                 }
                 1 => {
                     ops.push(Op::WithCap(rng.below(9)));
                     lens.push(0);
+                    contents.push(vec![]);
                 }
                 2 => {
                     let n = rng.below(6);
-                    ops.push(Op::Build(fresh(n, &mut next_val)));
+                    let v = fresh(n, &mut next_val);
+                    contents.push(v.clone());
+                    ops.push(Op::Build(v));
                     lens.push(n);
                 }
                 _ => {
                     let n = rng.below(6);
-                    ops.push(Op::FromDeque(fresh(n, &mut next_val)));
+                    let v = fresh(n, &mut next_val);
+                    contents.push(v.clone());
+                    ops.push(Op::FromDeque(v));
                     lens.push(n);
                 }
             }
@@ -594,11 +627,33 @@ pub fn generate_ops(rng: &mut Rng, fault: bool) -> Vec<Op> {
         match k {
             0..=3 => {
                 // mutate
-                next_val += 1;
+                next_val += 16;
+                let mut v = next_val;
+                if twins && rng.chance(0.35) {
+                    // an element equal (same key) to one that was just removed, or that sits at
+                    // an end of some list, but distinguishable from it (other tag)
+                    let mut cands: Vec<u64> = removed.iter().rev().take(4).copied().collect();
+                    for c in &contents {
+                        if let Some(x) = c.first() {
+                            cands.push(*x);
+                        }
+                        if let Some(x) = c.last() {
+                            cands.push(*x);
+                        }
+                    }
+                    if !cands.is_empty() {
+                        next_tag = next_tag % 15 + 1;
+                        let base = *rng.pick(&cands);
+                        let t = (base % 16 + next_tag) % 16;
+                        v = key_of(base) * 16 + t;
+                    }
+                }
                 if k % 2 == 0 {
-                    ops.push(Op::PushFront(i, next_val));
+                    ops.push(Op::PushFront(i, v));
+                    contents[i].insert(0, v);
                 } else {
-                    ops.push(Op::PushBack(i, next_val));
+                    ops.push(Op::PushBack(i, v));
+                    contents[i].push(v);
                 }
                 lens[i] += 1;
             }
@@ -607,6 +662,8 @@ pub fn generate_ops(rng: &mut Rng, fault: bool) -> Vec<Op> {
                     ops.push(Op::Clone(i));
                     live.push(true);
                     lens.push(lens[i]);
+                    let c = contents[i].clone();
+                    contents.push(c);
                 } else {
                     ops.push(Op::Drop(i));
                     live[i] = false;
@@ -615,6 +672,9 @@ pub fn generate_ops(rng: &mut Rng, fault: bool) -> Vec<Op> {
             6 | 7 => {
                 ops.push(Op::Tail(i));
                 lens[i] = lens[i].saturating_sub(1);
+                if !contents[i].is_empty() {
+                    removed.push(contents[i].remove(0));
+                }
             }
             8 => {
                 ops.push(Op::Drop(i));
